@@ -423,9 +423,12 @@ def hash_on_accelerated_builds(ctx):
             def mk(g, isbigcrc):
                 def gen(rng, tier, mult):
                     # `big sha1/md5` (one update of 2^29 + k bytes) is about the portable bit counters, not about an accelerated
-                    # transform: those cases stay with C01; `big sha256` (failing-input search) and `big crc` are kept
-                    cs = [x for i, x in enumerate(y for y in g(rng, tier, mult) if not y[0].startswith(("pbkdf2sum", "big sha1", "big md5")))
-                          if i % 3 == 0 or x[0].startswith("big ")]
+                    # transform: those cases stay with C01; `big sha256` (failing-input search) and `big crc` are kept.  Likewise
+                    # `bigd` (>= 2^25 bytes of real data against the model: the length field of the padding) stays with C01 in
+                    # the quick tier (+5 s per build otherwise); thorough tier and failing-input search keep every `bigd sha256`
+                    drop = ("pbkdf2sum", "big sha1", "big md5", "bigd sha1", "bigd md5") + (("bigd ",) if tier == "quick" and mult < 10 else ())
+                    cs = [x for i, x in enumerate(y for y in g(rng, tier, mult) if not y[0].startswith(drop))
+                          if i % 3 == 0 or x[0].startswith(("big ", "bigd "))]
                     if isbigcrc and tier == "quick" and mult < 10 and not os.environ.get("VERIF_NO_BIG"):
                         # one CRC32C update of 2^32 + k bytes through the SSE4.2 routine in every run (a few seconds)
                         cs = _c01.big_cases(rng.fork("bigq"), "thorough", 1, ["crc"], 1 << 32) + cs
